@@ -36,7 +36,16 @@ PLUGINS = {
     "F": CONTRIB + "client_forward_refs.ClientForwardRefsPlugin",
     "N": CONTRIB + "no_reimports.NoReimportsPlugin",
     "I": "c15_identity_plugin.IdentityPlugin",
+    # lower case = the same plugin given by its MODULE path (plugins/explorer.py: a module entry stands for every
+    # plugin class the module exposes; each of these modules exposes exactly one)
+    "s": CONTRIB + "shorter_results",
+    "e": CONTRIB + "extract_operations",
+    "f": CONTRIB + "client_forward_refs",
+    "n": CONTRIB + "no_reimports",
+    "i": "c15_identity_plugin",
 }
+# configurations mixing class-path and module-path entries: the tree must be the one of the all-class-path spelling
+FORM_CONFIGS = ["sF", "Fs", "fS", "Sf", "sEf", "feS", "SeFn", "nE", "i", "sefn"]
 IDENTITY_SRC = (
     "from ariadne_codegen.plugins.base import Plugin\n\n\n"
     "class IdentityPlugin(Plugin):\n"
@@ -157,6 +166,26 @@ query Count($FIND_GQL: String) { count(FIND_GQL: $FIND_GQL) }
 """
 
 
+# operation ORDER: the same variable is spelled like a LATER / an EARLIER / the own operation's constant; the hook of
+# ExtractOperations is stateful (it knows the constants recorded so far), so every operation must be asked anew
+CORPUS3_SDL = "type Query { a(B_GQL: Int, C_GQL: Int): Int  b(B_GQL: Int, C_GQL: Int): Int  c(B_GQL: Int): Int  d(x: Int): Int }\n"
+CORPUS3_OPS = ["query A($B_GQL: Int, $C_GQL: Int) { a(B_GQL: $B_GQL, C_GQL: $C_GQL) }",
+               "query B($B_GQL: Int, $C_GQL: Int) { b(B_GQL: $B_GQL, C_GQL: $C_GQL) }",
+               "query C($B_GQL: Int) { c(B_GQL: $B_GQL) }",
+               "query D($x: Int) { d(x: $x) }"]
+N_FORM_SCENARIOS = 4
+
+
+def method_source(src, name):
+    i = src.find(f"def {name}(")
+    if i < 0:
+        return ""
+    j = src.find("\n    async def ", i + 1)
+    k = src.find("\n    def ", i + 1)
+    ends = [x for x in (j, k) if x > 0]
+    return src[i:min(ends)] if ends else src[i:]
+
+
 def corpus_expectations(case, ev):
     def client(cfg):
         f = case.files.get(cfg)
@@ -168,6 +197,22 @@ def corpus_expectations(case, ev):
             ev.append(("violation", f"corpus (Coq example package) with {cfg!r}: {what}",
                        replay_of(case, cfg, client=(client(cfg) or "")[:1500]), True))
 
+    if case.sc.seed in (-102, -103):
+        order = [q.split()[1].split("(")[0] for q in case.sc.queries.strip().splitlines()]
+        for cfg in [c for c in case.configs if "E" in c and client(c) is not None]:
+            src = client(cfg)
+            seen = []
+            for op in order:
+                seen.append(op + "_GQL")
+                m = method_source(src, op.lower())
+                for var in ("B_GQL", "C_GQL"):
+                    if f'"{var}":' not in m:
+                        continue
+                    want = var + "_" if var in seen else var
+                    expect(cfg, f"operation order {order}: in method {op.lower()} the argument for ${var} must be named {want} "
+                                f"(constants recorded so far: {seen})",
+                           f'"{var}": {want}' + ("," if False else "") in m and f"query={op}_GQL," in m)
+        return
     if case.sc.seed == -101:
         for cfg in [c for c in case.configs if client(c) is not None]:
             src = client(cfg)
@@ -211,7 +256,13 @@ def fixed_scenarios():
         out.append(scenario.Scenario(seed=-11 - i, sdl=CLASH_SDL, queries=CLASH_QUERIES, config=cfg,
                                      features=("fixed", "local_clash")))
     # enable_custom_operations is part of the configuration product (async and sync client)
-    for i, (base, asyn) in enumerate([(out[3], True), (out[4], False)]):
+    out.insert(2, scenario.Scenario(seed=-102, sdl=CORPUS3_SDL, queries="\n".join(CORPUS3_OPS) + "\n",
+                                    config={"convert_to_snake_case": False, "async_client": True,
+                                            "opentelemetry_client": False}, features=("corpus",)))
+    out.insert(3, scenario.Scenario(seed=-103, sdl=CORPUS3_SDL, queries="\n".join(reversed(CORPUS3_OPS)) + "\n",
+                                    config={"convert_to_snake_case": False, "async_client": True,
+                                            "opentelemetry_client": False}, features=("corpus",)))
+    for i, (base, asyn) in enumerate([(out[5], True), (out[6], False)]):
         cfg = dict(base.config, enable_custom_operations=True, async_client=asyn)
         queries = base.queries if asyn else "\n".join(
             l for l in base.queries.split("\nsubscription")[0].splitlines())
@@ -352,7 +403,7 @@ def run(ctx):
 
     c15_source.run(ctx)
     thorough = ctx.thorough
-    n_seeded = 7 if not thorough else 60
+    n_seeded = 6 if not thorough else 60
     base_seed = ctx.seed * 100000 + 1500
     scenarios = fixed_scenarios()
     for i in range(n_seeded):
@@ -379,7 +430,7 @@ def _run(ctx, scenarios, configs, scratch):
     for si, sc in enumerate(scenarios):
         files = dict(sc.files)
         files["c15_identity_plugin.py"] = IDENTITY_SRC
-        for cfg in [""] + configs:
+        for cfg in [""] + configs + (FORM_CONFIGS if si < N_FORM_SCENARIOS else []):
             d = scratch.new(f"s{si}_")
             over = {"config": {"plugins": [PLUGINS[c] for c in cfg]}, "add_sys_path": True, "files": files}
             reqs.append(sc.request(d, **over))
@@ -556,6 +607,20 @@ def _check_case(case, plans, ev):
             nf = len(c0["fields"][0])
         ev.append(("dist", "operation_kind", op.operation.value))
         ev.append(("dist", "top_level_fields", "1" if nf == 1 else ("many" if nf else "n/a")))
+    # class-path / module-path spellings of one configuration must give the same tree (explorer keeps list order)
+    for cfg in [c for c in FORM_CONFIGS if c in case.gen]:
+        up = cfg.upper()
+        ev.append(("count", 1))
+        ev.append(("dist", "entry_forms", "mixed" if cfg != cfg.lower() else "module-paths"))
+        if not case.gen[cfg].ok:
+            ev.append(("violation", f"generation with plugin entries {[PLUGINS[c] for c in cfg]} fails: {case.gen[cfg].res.get('exc')}",
+                       replay_of(case, cfg, exc=case.gen[cfg].res.get("exc")), True))
+        elif up in case.gen and case.gen[up].ok and case.files[cfg] != case.files[up]:
+            changed = sorted(k for k in set(case.files[cfg]) | set(case.files[up]) if case.files[cfg].get(k) != case.files[up].get(k))
+            ev.append(("violation", f"plugins given as {[PLUGINS[c] for c in cfg]} (module paths mixed with class paths) do not give the "
+                                    f"package of the same list spelled with class paths: files {changed} differ — entries are not "
+                                    f"applied in configuration order", replay_of(case, cfg, class_path_spelling=[PLUGINS[c] for c in up],
+                                                                                    changed=changed), True))
     for cfg in case.configs:
         g = case.gen[cfg]
         ev.append(("dist", "configuration_size", str(len(cfg))))
